@@ -154,6 +154,12 @@ def _props_of_tag(tag, default):
 
 
 def _const(node):
+    # a compiled pattern constant `re.compile("<literal>")` (for re_fullmatch) besides plain literals
+    if isinstance(node, ast.Call) and isinstance(node.func, ast.Attribute) and node.func.attr == 'compile' \
+            and isinstance(node.func.value, ast.Name) and node.func.value.id == 're' and len(node.args) == 1 \
+            and not node.keywords:
+        import re
+        return re.compile(ast.literal_eval(node.args[0]))
     return ast.literal_eval(node)
 
 
